@@ -247,3 +247,55 @@ def outer_product_oracle(helper):
 
 
 FUNCS['outer_product_oracle'] = outer_product_oracle
+
+
+# ---- C07 run-time oracle pieces
+class ApproxFloat(float):
+    def __eq__(self, o):
+        try:
+            o = float(o)
+        except (TypeError, ValueError):
+            return NotImplemented
+        return abs(float(self) - o) <= 1e-9 * max(1.0, abs(float(self)), abs(o))
+
+    def __ne__(self, o):
+        return not self.__eq__(o)
+
+    def __hash__(self):
+        return hash(float(self))
+
+
+def awaited(x):
+    import torch
+    if isinstance(x, (torch._C.Future, torch.futures.Future)):
+        return x.wait()
+    return x
+
+
+def clip_sum(p, i):
+    """sum over the first i layers in visiting order (reversed registration order) of <V, D> * lr^2."""
+    import torch
+    layers = list(reversed(list(p._layers.values())))[:i]
+    tot = 0.0
+    for _, l in layers:
+        v = awaited(l._grad)
+        w = l.module.get_weight_grad()
+        if l.module.has_bias():
+            b = l.module.get_bias_grad()
+            tot += (v[:, :-1].reshape(w.shape) * w * p.lr ** 2).sum().item()
+            tot += (v[:, -1:].reshape(b.shape) * b * p.lr ** 2).sum().item()
+        else:
+            tot += (v.reshape(w.shape) * w * p.lr ** 2).sum().item()
+    return ApproxFloat(tot)
+
+
+def sqrt_of(x):
+    import math
+    return math.sqrt(x)
+
+
+FUNCS.update({'awaited': awaited, 'clip_sum': clip_sum, 'sqrt_of': sqrt_of,
+              'nu_rt': None})
+FUNCS.pop('nu_rt')
+_item_old = FUNCS['item']
+FUNCS['item'] = lambda a: ApproxFloat(_item_old(a))
